@@ -200,6 +200,13 @@ def run(check):
             if isinstance(st, ast.Assign) and any(isinstance(t, ast.Name) and t.id == x.id for t in st.targets):
               todo.append(st)
     rel_nodes = [n for a in rel for n in go.nodes_of(a)]
+    # an assignment nested in `if <cond>:` starts at that test (the decision is part of how the value is derived)
+    for a in list(rel):
+      p_ = getattr(a, '_parent', None)
+      while p_ is not None and p_ is not fo.node:
+        if isinstance(p_, ast.If):
+          rel_nodes.extend(n for n in go.nodes if n.kind == 'test' and (n.ast is p_.test or any(x is n.ast for x in ast.walk(p_.test))))
+        p_ = getattr(p_, '_parent', None)
     starts = [n for n in rel_nodes if not any(m is not n and n in go.reach(go.after(m), normal_only=True) for m in rel_nodes)]
     MAXS = ('attr', ('param', 'settings'), 'MAX_CACHE_SIZE')
 
@@ -258,9 +265,22 @@ def run(check):
   r_cnt = check.rule('R-C10-overflow-counter', 1, 'cacheOverflow feeds the cache.overflow counter')
   from ..registry import handlers_of
   hs = handlers_of(cx, 'carbon.events.cacheOverflow')
-  good = [h for h in hs if h[0] is not None and any(
-    isinstance(c, ast.Call) and (dotted(c.func) or '').endswith('increment') and c.args and
-    isinstance(c.args[0], ast.Constant) and c.args[0].value == 'cache.overflow' for c in ast.walk(h[0].node))]
+  def counts_overflow(h, s_):
+    closure = {}
+    site_arg = s_['call'].args[0] if s_['call'].args else None
+    # a handler produced by a factory call  F('<stat>')  closes over F's parameters
+    if h.parent_fn is not None and isinstance(site_arg, ast.Call) and dotted(site_arg.func) == h.parent_fn.name and \
+       len(site_arg.args) <= len(h.parent_fn.params):
+      closure = {p_: a_ for p_, a_ in zip(h.parent_fn.params, site_arg.args) if isinstance(a_, ast.Constant)}
+    for c in ast.walk(h.node):
+      if isinstance(c, ast.Call) and (dotted(c.func) or '').endswith('increment') and c.args:
+        a0 = c.args[0]
+        if isinstance(a0, ast.Name) and a0.id in closure:
+          a0 = closure[a0.id]
+        if isinstance(a0, ast.Constant) and a0.value == 'cache.overflow':
+          return True
+    return False
+  good = [h for h in hs if h[0] is not None and counts_overflow(h[0], h[2])]
   if good:
     r_cnt.ok('handler increments cache.overflow', good[0][0].loc())
   else:
